@@ -410,5 +410,12 @@ def _ord(f, bb, strong):
     return str(sites.index(bb))
 
 
+def rules_all(ctx, db):
+    rules(ctx, db)
+    if ctx.tier == "thorough" and ctx.cfg == "A":
+        from .. import witness
+        witness.obligations(ctx, "C01")
+
+
 def check(tier):
-    return engine.run("C01", tier, rules, NOT_DECIDED, [])
+    return engine.run("C01", tier, rules_all, NOT_DECIDED, [])
